@@ -79,7 +79,7 @@ impl Ctl {
         }
         g.grant = Some(t);
         self.cv.notify_all();
-        let deadline = std::time::Instant::now() + Duration::from_millis(400);
+        let deadline = std::time::Instant::now() + Duration::from_millis(3000);   // generous: the machine may be heavily loaded
         loop {
             let (ng, _) = self.cv.wait_timeout(g, Duration::from_millis(50)).unwrap();
             g = ng;
